@@ -120,19 +120,24 @@ func genC20(tier string, r *rng, emit func(string)) {
 						emit(fmt.Sprintf("prog %s %s", dt, p.prog()))
 					}
 					// y += a*x and y += a*s on every layout of a and y
-					var p pb
-					preA, ia := source(r, la, sh, 2)
-					a := p.add(preA, ia)
-					preX, ix := source(r, "rm", sh, 1)
-					x := p.add(preX, ix)
-					preY, iy := source(r, lb, sh, 20)
-					y := p.add(preY, iy)
-					q := p
-					p.ops = append(append([]string{}, p.ops...), fmt.Sprintf("fma:%d:%d:%d", a, x, y))
-					q.ops = append(append([]string{}, q.ops...), fmt.Sprintf("fmas:%d:%d:%d", a, 3, y))
-					for _, pp := range []pb{p, q} {
-						emit(fmt.Sprintf("proge %s %s %s", eng, dt, pp.prog()))
-						emit(fmt.Sprintf("prog %s %s", dt, pp.prog()))
+					for _, lx := range []string{"rm", "cm", "T", "stepslice"} {
+						var p pb
+						preA, ia := source(r, la, sh, 2)
+						a := p.add(preA, ia)
+						preX, ix := source(r, lx, sh, 1)
+						x := p.add(preX, ix)
+						preY, iy := source(r, lb, sh, 20)
+						y := p.add(preY, iy)
+						q := p
+						p.ops = append(append([]string{}, p.ops...), fmt.Sprintf("fma:%d:%d:%d", a, x, y))
+						q.ops = append(append([]string{}, q.ops...), fmt.Sprintf("fmas:%d:%d:%d", a, 3, y))
+						for k, pp := range []pb{p, q} {
+							if k == 1 && lx != "rm" {
+								continue // the scalar form has no x operand
+							}
+							emit(fmt.Sprintf("proge %s %s %s", eng, dt, pp.prog()))
+							emit(fmt.Sprintf("prog %s %s", dt, pp.prog()))
+						}
 					}
 				}
 			}
